@@ -179,6 +179,10 @@ def execute(cfg, chooser, want_trace=False):
     if server == 'handover':
         script[1] = [simpeer.hdr(1, 4, 33) + bytes([6, 19])
                      + b'urn:nfc:sn:handover']
+    if cfg.get('frmr') is not None:
+        # the peer rejects the application's data link connection (local
+        # address 32, peer 16) with FRMR at this exchange, before the link ends
+        script[cfg['frmr']] = [simpeer.hdr(32, 8, 16) + bytes([0x8C, 0, 0, 0])]
     p = simpeer.Peer(ack=not noack, script=script)
     brk = simpeer.Break(cause, at)
     Ini, Tgt = simpeer.make_mac_classes()
@@ -359,6 +363,16 @@ def configs(tier):
                 for age in ('old', 'new'):
                     out.append(dict(role=role, cause=cause, at=2, ops=[],
                                     late=(kind, age), traced=traced))
+    # a connection the peer rejected with FRMR before the link ends: the
+    # call blocked on it must return then or when the link ends
+    for role in ('initiator', 'target'):
+        for cause in ('disc', 'timeout', 'terminate'):
+            for op in ('dlc_recv', 'dlc_poll_recv', 'dlc_send_window',
+                       'dlc_poll_acks'):
+                for frmr in ((3, 4, 5) if thorough else (4,)):
+                    out.append(dict(role=role, cause=cause, at=frmr + 3,
+                                    ops=[op], gate='start', frmr=frmr,
+                                    traced=traced))
     # service threads
     for role in ('initiator', 'target'):
         for cause in causes:
